@@ -125,7 +125,9 @@ var subC06 = &fw.Sub{Name: "c06.run", New: func() fw.Case { return &c06Case{} },
 
 // one representative per lexer character class
 var c06Bytes = []string{"0", "1", "8", "9", "a", "e", "x", "E", "_", `"`, `\`, ".", "+", "-", "*", "/", "=", "!", "<", ">",
-	":", ";", "(", ")", "{", "}", "#", " ", "\n", "\r", "\xC2", "\x85", "\xA0", "@", "\x00", "\xFF"}
+	":", ";", "(", ")", "{", "}", "#", " ", "\n", "\r", "\xC2", "\x85", "\xA0", "@", "\x00", "\xFF",
+	// runes whose low byte is that of LF / space (a predicate that truncates the rune would misclassify them)
+	"\u010a", "\u0120"}
 
 // vocabulary incl. the dangerous spellings
 var c06Toks = []string{"var", "def", "eval", "print", "bind", "true", "false", "nil", "not", "and", "or",
@@ -166,7 +168,7 @@ func init() {
 	fw.Register(&fw.Check{
 		ID:    "C06",
 		Level: "exploration",
-		Rule: "bounded-exhaustive: (a) every byte string of length <=L over one representative per lexer character class (36 symbols), bare and inside `print _` and `def a{_}`; " +
+		Rule: "bounded-exhaustive: (a) every byte string of length <=L over one representative per lexer character class (38 symbols), bare and inside `print _` and `def a{_}`; " +
 			"(b) every token string of length <=T over a 47-symbol vocabulary that includes the malformed literals; (c) every single-token and single-byte deviation (delete/insert/replace/transpose) of every core-corpus program; " +
 			"(d) scaled programs just below/at/above each implementation limit. Each through Parse+Interpret+Unmarshal under recover, (c),(d) and the short part of (a),(b) also through ParseFile/InterpretFile/UnmarshalFile in a worker process whose death is attributed to the input in flight. " +
 			"Invariant oracle: returns, no panic, process alive, result or error. distinct_nontrivial = distinct inputs executed.",
